@@ -6,3 +6,5 @@ CONSTANTS
   MaxMut = 0
   Recheck = TRUE
   NCases = 0
+  Precheck = FALSE
+  NMutators = 1
